@@ -99,7 +99,7 @@ impl Prop for C04 {
     fn rule(&self) -> &'static str {
         "four batches, one kind per run. scan: sources built from random 16-byte markers (names, link targets, contents) go through backup/edit/backup/prune-repack/copy-into-other-key histories; every stored byte outside keys/ is scanned for any 12-byte window of any marker \
          (positive control: the simulator's own decryption must find them), every non-key file must authenticate under the master key, key files must not contain master-key bytes. \
-         nonce: with the nonce hook disarmed and real OS randomness, the nonce of every stored message (files, every blob in every pack, every pack header) over a history that re-encrypts identical plaintexts must be pairwise distinct. \
+         nonce: with the nonce hook disarmed and real OS randomness, the nonce of every stored message (files, every blob in every pack, every pack header) over a history that re-encrypts identical plaintexts must be pairwise distinct and no two of them numerically within 2^64 of each other (a counter or clock instead of fresh randomness would make messages share AES-CTR key stream). \
          tamper: for sampled/all stored files x {remove, truncate, bit flip, extend, swap with sibling, index entry drop/dup}: opening, listing, loading the index and reading every snapshot back must give Err or exactly the untampered result — a read that returns different content, or a snapshot id that resolves to another snapshot, is a violation; so is a panic on the calling thread. \
          cred: random sequences of add_key / delete_key / open with right password, wrong password, master key, wrong master key against a model set of valid credentials. \
          evaluations = files scanned / nonces compared / damaged states / open attempts; non-trivial per kind as stated; distinct = hash(kind, state, case)"
@@ -288,6 +288,25 @@ impl Prop for C04 {
                                 add(&data[..16], format!("{} {}", ft_name(tpe), id_hex(id)), &mut rep);
                             }
                         }
+                    }
+                }
+                // fresh *random* nonces: the stored nonce is the initial AES-CTR counter block, so two nonces
+                // that are numerically close (a counter, a timestamp) make messages share key stream. For
+                // independent random 128-bit values the chance that any two of n <= 10^5 lie within 2^64 of
+                // each other is below 10^-9.
+                {
+                    let mut vals: Vec<(u128, &String)> = nonces.iter().filter(|(k, _)| k.len() == 16).map(|(k, w)| (u128::from_be_bytes(k.as_slice().try_into().unwrap()), w)).collect();
+                    vals.sort_by_key(|v| v.0);
+                    for w in vals.windows(2) {
+                        if w[1].0 - w[0].0 < (1u128 << 64) {
+                            rep.violation("C04/nonces-numerically-close(not-random)", format!("{} and {} have nonces {:032x} and {:032x}: their AES-CTR counter ranges are adjacent or overlapping", w[0].1, w[1].1, w[0].0, w[1].0));
+                            break;
+                        }
+                    }
+                    let mut le: Vec<u128> = nonces.keys().filter(|k| k.len() == 16).map(|k| u128::from_le_bytes(k.as_slice().try_into().unwrap())).collect();
+                    le.sort_unstable();
+                    if le.windows(2).any(|w| w[1] - w[0] < (1u128 << 64)) {
+                        rep.violation("C04/nonces-numerically-close(not-random)", "two nonces differ by less than 2^64 read as little-endian integers".to_string());
                     }
                 }
                 interpose::rand_deterministic(s.subseed);
